@@ -408,9 +408,11 @@ protected:
             boost::numeric::interval_lib::checking_base<float>>>;
     I i;
 
-    Interval(const I& i, bool maybe_nan)
-        : i(i), maybe_nan(maybe_nan || std::isnan(i.lower())
-                                    || std::isnan(i.upper()))
+    Interval(const I& i_, bool maybe_nan)
+        : i((std::isnan(i_.lower()) || std::isnan(i_.upper()))
+                ? I(-INFINITY, INFINITY) : i_),
+          maybe_nan(maybe_nan || std::isnan(i_.lower())
+                              || std::isnan(i_.upper()))
     {
         // Nothing to do here
     }
